@@ -43,6 +43,20 @@ def eval_call(interp, node, env):
                 e2.set(lam.args.args[0].arg, kk)
                 out.append(ops.truth(interp, interp.eval(lam.body, e2)))
             return ops.conj(out)
+        if name == "forall_pix":
+            # goal-only universal statement over the (row, column) positions of an array/image:
+            # proved by skolemisation (fresh indices assumed in range); never usable as a hypothesis
+            if not getattr(interp, "goal_mode", False):
+                raise OutOfSubset("forall_pix used outside a proof goal")
+            target = interp.eval(node.args[0], env)
+            lam = node.args[1]
+            arr = target.fields["_array"] if hasattr(target, "fields") else target
+            r, c = z3.Int(fresh_name("row")), z3.Int(fresh_name("col"))
+            interp.path.assume(z3.And(r >= 0, r < z3num(arr.shape[0]), c >= 0, c < z3num(arr.shape[1])))
+            e2 = Env(parent=env)
+            e2.set(lam.args.args[0].arg, r)
+            e2.set(lam.args.args[1].arg, c)
+            return ops.truth(interp, interp.eval(lam.body, e2))
         if name == "implies":
             a = ops.truth(interp, interp.eval(node.args[0], env))
             if a is False:
